@@ -49,7 +49,7 @@ CHECKS = {
  "C12": ("exploration",
          "deviation-bounded exhaustive enumeration of commented programs x formatter configurations with token/meaning/comment-sequence oracles",
          "DESIGN.md §4 C12",
-         "Every base program with one comment at every trivia slot (pairs of slots in thorough) x default and every one-factor formatter configuration (all 960 in thorough) is formatted by the real formatter: the result must parse, keep the token string, assemble to the same bytes/symbols/diagnostics and contain the same comments in order; `mos format` on multi-file projects is checked through the real binary.",
+         "Every base program with one comment at every trivia slot - or the statement joined onto the previous statement's line, with and without a block comment in between - (pairs of slots in thorough) x default and every one-factor formatter configuration (all 960 in thorough) is formatted by the real formatter: the result must parse, keep the token string, assemble to the same bytes/symbols/diagnostics and contain the same comments in order; `mos format` on multi-file projects is checked through the real binary.",
          "Comment texts are fixed; own lexer for the token/comment clauses; known formatter defects are listed in KNOWN_FINDINGS.txt."),
  "C13": ("exploration",
          "deviation-bounded exhaustive enumeration of commented programs x formatter configurations, idempotence oracle",
@@ -69,7 +69,7 @@ CHECKS = {
  "C17": ("exploration",
          "deviation-bounded exhaustive enumeration of buffers (trivia, whitespace, CRLF, non-ASCII deviations) with an edit-application oracle against the real formatter, on the real server",
          "DESIGN.md §4 C17",
-         "Every base program with one comment / whitespace deviation per trivia slot, CRLF and non-ASCII (1-, 1- and 2-UTF-16-unit characters at start/middle/end of strings and comments) variants, tiny buffers, the example sources and the formatter's own output are opened in a fresh real server; the edits returned by formatting and on-type formatting must be in range, ordered, non-overlapping and, applied with standard LSP (UTF-16, CRLF-aware) semantics, reproduce the in-process formatter exactly (cross-checked against `mos format`).",
+         "Every base program with one comment / whitespace deviation per trivia slot (including two statements sharing a line), CRLF and non-ASCII (1-, 1- and 2-UTF-16-unit characters at start/middle/end of strings and comments) variants, tiny buffers, the example sources and the formatter's own output are opened in a fresh real server; the edits returned by formatting and on-type formatting must be in range, ordered, non-overlapping and, applied with standard LSP (UTF-16, CRLF-aware) semantics, reproduce the in-process formatter exactly (cross-checked against `mos format`).",
          "Own LSP text model (self-checked at start-up); only answers that contain edits are judged, as the statement says."),
  "C18": ("exploration",
          "bounded-exhaustive enumeration of test bodies x assertion placements against a reference 6502 interpreter, in-process test runner and real `mos test`",
